@@ -124,8 +124,8 @@ class ModelMixin2:
                 return IterSpec(len(d.items), len(d.items), [k for k, _ in d.items], None, 'dict')
             return IterSpec(0, None, None, lambda s, k: [(Unknown('dict key'), s)], 'dict')
         if isinstance(v, Ref) and v.kind == 'list' and st.get(v.sym).kind == 'repeat':
-            rep = st.get(v.sym).items[0]
-            return IterSpec(2, None, None, lambda s, k, rep=rep: [(rep, s)], 'itertools.repeat', ordered=True)
+            reps = st.get(v.sym).items
+            return IterSpec(2, None, None, lambda s, k, reps=reps: [(r, s if i == len(reps) - 1 else s.copy()) for i, r in enumerate(reps)], 'itertools.repeat', ordered=True)
         if isinstance(v, Ref) and v.kind == 'list' and st.get(v.sym).kind == 'count':
             return IterSpec(2, None, None, lambda s, k: [(NumV(('count',)), s)], 'itertools.count', ordered=True)
         if isinstance(v, Ref) and v.kind == 'list':
@@ -165,9 +165,9 @@ class ModelMixin2:
                         outs = nxt
                     return [(TupleV(it), s2) for it, s2 in outs]
                 # zip() stops with its shortest argument: a sequence of known length next to one that can be longer truncates the latter
-                fixed = [len(sp.exact) for sp in specs if sp.exact is not None]
-                longer = [sp for sp in finite if sp.exact is None and (sp.hi is None or (fixed and sp.hi > min(fixed)))]
-                if fixed and longer:
+                fixed = [len(sp.exact) for sp in specs if sp.exact is not None and sp.descr in ('tuple', 'literal') and len(sp.exact) > 0]
+                longer = [sp for sp in finite if sp.exact is None and sp.descr != 'unknown' and (sp.hi is None or (fixed and sp.hi > min(fixed)))]
+                if fixed and longer and not endless:
                     self.hook('zip-truncate', st, node, length=min(fixed), what=longer[0].descr)
                 if all(sp.exact is not None for sp in specs):
                     n = min(len(sp.exact) for sp in specs)
